@@ -51,6 +51,8 @@ type variant struct {
 	Name    string // Coq identifier stem, e.g. chainsync_ntn
 	Pkg     string // directory under protocol/
 	Mode    protocol.ProtocolMode
+	// SampleMode: the mode whose message constructors/decoders apply when Mode is omitted
+	SampleMode protocol.ProtocolMode
 	Version uint16
 	// DecoderFunc is the name of the NewMsgFromCbor* function in messages.go
 	// whose switch decides decodability in this mode
@@ -75,6 +77,18 @@ func variants() []variant {
 			Mk: func(o protocol.ProtocolOptions) (any, any) {
 				c := handshake.NewConfig()
 				return handshake.NewClient(o, &c), handshake.NewServer(o, &c)
+			}},
+		// Mode OMITTED (ProtocolModeNone): every package whose constructors branch on
+		// ProtocolOptions.Mode gets a third column, built through the real constructors
+		{Name: "handshake_mode0", Pkg: "handshake", Mode: 0, SampleMode: ntn, Version: 14, DecoderFunc: "NewMsgFromCbor",
+			Mk: func(o protocol.ProtocolOptions) (any, any) {
+				c := handshake.NewConfig()
+				return handshake.NewClient(o, &c), handshake.NewServer(o, &c)
+			}},
+		{Name: "chainsync_mode0", Pkg: "chainsync", Mode: 0, SampleMode: ntc, Version: 16 + protocol.ProtocolVersionNtCOffset, DecoderFunc: "NewMsgFromCbor",
+			Mk: func(o protocol.ProtocolOptions) (any, any) {
+				c := chainsync.NewConfig()
+				return chainsync.NewClient(o, &c), chainsync.NewServer(o, &c)
 			}},
 		{Name: "chainsync_ntn", Pkg: "chainsync", Mode: ntn, Version: 14, DecoderFunc: "NewMsgFromCbor",
 			Mk: func(o protocol.ProtocolOptions) (any, any) {
